@@ -470,12 +470,20 @@ func (s *Writer) loadSnapshot(epoch uint64) (*Snapshot, error) {
 		dataReader = crcReader
 	}
 
-	_, err = snapshot.ReadFrom(dataReader)
+	var bytesRead int64
+	bytesRead, err = snapshot.ReadFrom(dataReader)
 	if err != nil {
 		if closer != nil {
 			_ = closer.Close()
 		}
 		return nil, err
+	}
+	// the segments must account for every byte in front of the CRC
+	if bytesRead != int64(data.Len()-crcWidth) {
+		if closer != nil {
+			_ = closer.Close()
+		}
+		return nil, fmt.Errorf("snapshot %d: decoded %d of %d bytes", epoch, bytesRead, data.Len()-crcWidth)
 	}
 
 	if crcReader != nil {
